@@ -132,7 +132,7 @@ public:
     }
 
     static Counters Reduce(const ReduceType& inOther1, const ReduceType& inOther2){
-        return Counters::Reduce(inOther1.counters, inOther2.counters);
+        return Counters::Reduce(inOther1, inOther2);
     }
 };
 
